@@ -13,7 +13,29 @@ def report : String :=
   let badMt := serviceDefs.filter fun d => !defMatch TM registry d
   let badRows := (schemaApi.filter fun d => !typeRowOk TA d) ++ (schemaMt.filter fun d => !typeRowOk TM d)
   let badReg := registry.filter fun c => !regRowOk c
-  let badMeth := (methods.filter isGenerated).filter fun m => !methodOk TA registry schemaApi m
+  -- methods: the shape (which request, which arguments where, which result) / the body skeleton
+  let badMeth := methods.filter fun m =>
+    if isGenerated m then !methodShapeOk TA registry schemaApi m
+    else handWrittenSkeletons.contains m.skeleton && !wrapperMethodOk wrappers m
+  let badSkel := methods.filter fun m =>
+    if isGenerated m then !skeletonOk m else !handWrittenSkeletons.contains m.skeleton
+  let skelText := fun (m : MethodFact) =>
+    m.name ++ ":" ++ (if m.skeleton.isEmpty then "empty" else ";".intercalate (m.skeleton.map BodyStmt.show))
+  -- every reflected struct field is a field of the layout, tagged as its flag says
+  let rows3 := List.zip registry (List.zip fieldNames allFields)
+  let ctorName := fun (c : CtorDesc) =>
+    match (schemaApi ++ schemaMt).find? (fun d => d.id == c.id) with
+    | some d => d.name.toString
+    | none => c.name
+  let extraFields := rows3.flatMap fun (c, n, a) =>
+    if c.kind != .struct then []
+    else if c.id != n.1 || c.id != a.1 then [s!"{ctorName c}:<tables-misaligned>"]
+    else
+      let ex := (extraFieldsOf n.2 a.2).map fun g => s!"{ctorName c}:{g.toString}"
+      if ex.isEmpty && a.2.map (·.1) != n.2 then [s!"{ctorName c}:<field-order>"] else ex
+  let badTags := rows3.flatMap fun (c, n, a) =>
+    if c.kind != .struct then [] else (badTagFieldsOf c n.2 a.2).map fun g => s!"{ctorName c}:{g.toString}"
+  let fieldTable := regFieldsChunksOk registryChunks fieldNamesChunks allFieldsChunks
   let badWrap := wrappers.filter fun w => !(wrapperOk TA registry schemaApi w && wrapperNames.contains w.schemaName)
   let extra := extraIds.filterMap fun id => (registry.find id).map fun c => c.name
   let badNames := (apiDefs ++ serviceDefs).flatMap fun d =>
@@ -31,6 +53,8 @@ def report : String :=
   s!"reg={showList (badReg.map (·.name))} methods={showList (badMeth.map (·.name))} " ++
   s!"wrappers={showList (badWrap.map (·.name))} extra={showList extra} counts={tableCountsOk} dupids={dup} " ++
   s!"names={showList badNames} nametable={nameTable} " ++
+  s!"skeleton={showList (badSkel.map skelText)} extra-field={showList extraFields} field-tag={showList badTags} " ++
+  s!"fieldtable={fieldTable} " ++
   s!"ndefs={schemaApi.length + schemaMt.length} nreg={registry.length} nmethods={methods.length}"
 
 def handle : List String → String
